@@ -222,4 +222,34 @@ theorem l2_apply_inv (o o' : Obj) (op : List String) (hi : ObjInv o) (h : apply 
   | ppi p => simp [apply] at h
   | pktap p => simp [apply] at h
 
+/-! ### next-protocol tags survive the round trip (C03 lift through the dispatch; decided over the generated tables) -/
+
+/-- every EtherType libtins derives from a payload class is one the parsers dispatch on: a derived tag is never re-parsed
+    as an opaque RawPDU -/
+theorem derived_ether_tag_dispatches :
+    ∀ p ∈ Gen.Tags.pduTypeToEther, (Tags.classOfEther p.2).isSome = true := by decide
+
+/-- for the family's own classes the dispatch leads back to the class the tag was derived from -/
+theorem l2_ether_tag_roundtrip (cls : String) (h : cls ∈ ["Dot1Q", "MPLS", "PPPoE"]) (f : Fields) (hd tr : Nat) :
+    Tags.classOfEther (etherTagOf ⟨cls, f, hd, tr⟩) = some cls := by
+  simp only [List.mem_cons, List.mem_nil_iff, or_false] at h
+  rcases h with h | h | h <;> subst h
+  · have hp : Tags.pduTypeOf "Dot1Q" = "DOT1Q" := by decide
+    have hn : ("DOT1Q" == "PPPOE") = false := by decide
+    simp only [etherTagOf, hp, hn, Bool.false_eq_true, if_false]
+    decide
+  · have hp : Tags.pduTypeOf "MPLS" = "MPLS" := by decide
+    have hn : ("MPLS" == "PPPOE") = false := by decide
+    simp only [etherTagOf, hp, hn, Bool.false_eq_true, if_false]
+    decide
+  · have hp : Tags.pduTypeOf "PPPoE" = "PPPOE" := by decide
+    simp only [etherTagOf, hp, beq_self_eq_true, if_true]
+    split <;> decide
+
+/-- EthernetII's own choice of tag (PPPoE by stage, 802.1ad for stacked VLAN tags) also leads back to the class -/
+theorem eth_tag_roundtrip :
+    Tags.classOfEther 34916 = some "PPPoE" ∧ Tags.classOfEther 34915 = some "PPPoE" ∧
+    Tags.classOfEther 34984 = some "Dot1Q" ∧ Tags.classOfEther (Tags.etherOfPduType (Tags.pduTypeOf "Dot1Q")) = some "Dot1Q" ∧
+    Tags.classOfEther (Tags.etherOfPduType (Tags.pduTypeOf "MPLS")) = some "MPLS" := by decide
+
 end Tins.Wire.L2
